@@ -246,6 +246,29 @@ func VfC09_UpstreamStop() {
 	}
 }
 
+// VfC09_StopDuringRedirect: the upstream is stopped while a backend's reader follows a MOVED
+// redirection to a node it has no connection to yet (the reader has to create that connection).
+// Whatever the interleaving, Stop returns, the redirected request is answered and no goroutine is
+// left waiting for a lock.
+func VfC09_StopDuringRedirect() {
+	nd.ConcreteClock(true)
+	srv := vfNewServer()
+	srv.movedAt, srv.movedTo = 1, "127.0.0.1:1" // reply 0 answers READONLY; nothing listens on the named node
+	srv.setUp(true)
+	u, _ := vfNewUpstream(nil)
+	stopped, served := false, false
+	go func() { u.Serve(); served = true }()
+	nd.Quiesce()
+	req := newSimpleRequest(newStringArray("ping"))
+	nd.PanicLabel("stop-during-redirect")
+	u.MakeRequestToHost(srv.addr, req) // queued; the node will answer MOVED
+	go func() { u.Stop(); stopped = true }()
+	nd.Quiesce()
+	nd.Assert(stopped && served, "stopping the upstream returns while a redirection is being followed")
+	nd.Assert(vfDone(req.done), "the redirected request is answered")
+	nd.Cover("stopped-during-redirect")
+}
+
 // VfC07_ImmediateReset: the node resets a connection right after accepting it (it crashes while
 // the proxy is still registering the new connection). Whatever the interleaving of the dying
 // connection's clean-up with its registration, the dead connection does not stay in the table:
